@@ -438,7 +438,12 @@ pub fn eval_real<T: ADNum>(e: &E, leaves: &[T], out: &mut Vec<NodeObs<T>>) -> T 
         E::InvNormCdf(a) => (T::icdf(&eval_real(a, leaves, out)), "inv_norm_cdf".to_string(), None, None),
         E::Abs(a) => {
             let x = eval_real(a, leaves, out);
-            let s = if x.real() < 0.0 { "neg" } else { "pos" };
+            let s = match (x.real() < 0.0, x.real() != 0.0 && x.real().abs() < 1e-8) {
+                (true, false) => "neg",
+                (false, false) => "pos",
+                (true, true) => "tiny-neg",
+                (false, true) => "tiny-pos",
+            };
             (T::abs(&x), format!("abs:{}", s), None, None)
         }
         E::Sum(v) => {
@@ -613,7 +618,11 @@ impl<'a> Gen<'a> {
     }
 
     pub fn leaf_expr(&mut self) -> (E, RNum) {
-        let i = if !self.leaves.is_empty() && self.r.chance(0.3) { self.r.usize(self.leaves.len()) } else { self.new_leaf() };
+        let mut i = if !self.leaves.is_empty() && self.r.chance(0.3) { self.r.usize(self.leaves.len()) } else { self.new_leaf() };
+        // the tiny leaves made for abs() are not reused elsewhere (products with sub-normals lose all precision)
+        if self.leaves[i].v != 0.0 && self.leaves[i].v.abs() < 1e-10 {
+            i = self.new_leaf();
+        }
         (E::Leaf(i), leaf_ref(&self.leaves[i]))
     }
 
@@ -735,6 +744,14 @@ impl<'a> Gen<'a> {
                     }
                 }
                 18 => {
+                    if self.r.chance(0.2) {
+                        // abs of a leaf whose value is tiny but exactly given (around and far below machine epsilon; sub-normal
+                        // magnitudes are left to C19's direct check, because later products with them lose all precision): abs is differentiable there, and nothing has been rounded
+                        let i = self.new_leaf();
+                        self.leaves[i].v = self.r.sign() * [1e-100, 1e-30, 1e-17, 5.551115123125783e-17, 1.1102230246251565e-16, 2.220446049250313e-16, 1e-12, 1e-9][self.r.usize(8)];
+                        let ra = leaf_ref(&self.leaves[i]);
+                        return (E::Abs(Box::new(E::Leaf(i))), RNum::abs(&ra));
+                    }
                     let (a, ra) = self.tree(depth - 1, budget);
                     if ra.v.abs() >= 1e-6 {
                         Some((E::Abs(Box::new(a)), RNum::abs(&ra)))
